@@ -1,2 +1,6 @@
 import PyRt.Basic
 import PyRt.Wire
+import PyRt.Str
+import PyRt.Misc
+import PyRt.Stub
+import PyRt.Date
